@@ -159,6 +159,10 @@ func main() {
 			upport := k.str()
 			s := components.NewStreamToSubStream(getWf(), name)
 			s.In().From(nodes[up].out(upport))
+			for k.more() { // further upstream out-ports merged into the same adapter (not known to the reference evaluator)
+				up2 := k.int()
+				s.In().From(nodes[up2].out(k.str()))
+			}
 			nodes = append(nodes, &node{name: name, s2s: s})
 		case "PROC":
 			name := k.str()
